@@ -38,7 +38,8 @@ def gen_params(rng):
     if mode == "trio":
         samples, ped = ["dad", "mom", "kid"], [("dad", "mom", "kid")]
     elif mode == "quartet":
-        samples, ped = ["dad", "mom", "kid1", "kid2"], [("dad", "mom", "kid1"), ("dad", "mom", "kid2")]
+        kids = rng.choice([["kid1", "kid2"], ["zoe", "amy"], ["b_kid", "a_kid"]])
+        samples, ped = ["dad", "mom"] + kids, [("dad", "mom", kids[0]), ("dad", "mom", kids[1])]
     elif mode == "trio_plus":
         samples, ped = ["dad", "mom", "kid", "loner"], [("dad", "mom", "kid")]
     else:
@@ -49,7 +50,8 @@ def gen_params(rng):
     if support == "all" or support == "sparse":
         rs = list(samples)
     elif support == "parents_only":
-        rs = [s for s in samples if not s.startswith("kid")]
+        children = {c for _, _, c in ped}
+        rs = [s for s in samples if s not in children]
     else:
         rs = [rng.choice(samples)]
     p = {
